@@ -494,14 +494,15 @@ def start(config: dict[str, Any], tag: str = "") -> None:
     :param tag: extra name identifier for the test to be run
     """
     l, r = config["graph"].l, config["graph"].r
-    selected_nets = config["param_dict"]["nets"].split(" ")
+    # the nets could also be left to the configured default ones
+    workers = l.parse_workers(config["param_dict"])
+    selected_nets = [worker.id for worker in workers]
     LOG_UI.info(
         "Starting worker nets %s (%s)",
         ", ".join(selected_nets),
         os.path.basename(r.job.logdir),
     )
 
-    workers = l.parse_workers(config["param_dict"])
     for worker in workers:
         worker.start()
 
@@ -515,14 +516,15 @@ def stop(config: dict[str, Any], tag: str = "") -> None:
     :param tag: extra name identifier for the test to be run
     """
     l, r = config["graph"].l, config["graph"].r
-    selected_nets = config["param_dict"]["nets"].split(" ")
+    # the nets could also be left to the configured default ones
+    workers = l.parse_workers(config["param_dict"])
+    selected_nets = [worker.id for worker in workers]
     LOG_UI.info(
         "Stopping worker nets %s (%s)",
         ", ".join(selected_nets),
         os.path.basename(r.job.logdir),
     )
 
-    workers = l.parse_workers(config["param_dict"])
     for worker in workers:
         worker.stop()
 
